@@ -310,6 +310,34 @@ def mutate(data, m):
         return fixlen(t, body)
     if k == "zero":
         return fixlen(t, bytes(len(body)))
+    if k == "oid":
+        # a well-formed certificate whose key names something the library
+        # does not know: another curve (prime239v1 / c2pnb163v1 instead of
+        # prime256v1), another key algorithm, another signature algorithm
+        table = [(bytes.fromhex("2a8648ce3d030107"),
+                  bytes.fromhex("2a8648ce3d030104")),
+                 (bytes.fromhex("2a8648ce3d030107"),
+                  bytes.fromhex("2a8648ce3d030001")),
+                 (bytes.fromhex("2a8648ce3d0201"),
+                  bytes.fromhex("2a8648ce3d0202")),
+                 (bytes.fromhex("2a864886f70d010101"),
+                  bytes.fromhex("2a864886f70d010102")),
+                 (bytes.fromhex("2a864886f70d01010b"),
+                  bytes.fromhex("2a864886f70d0101ff")),
+                 (bytes.fromhex("2b6570"), bytes.fromhex("2b6572"))]
+        old_, new_ = table[m[1] % len(table)]
+        b = bytes(body)
+        if old_ not in b:
+            return None
+        # the key's own OID is the last occurrence but one in most
+        # certificates; m[2] picks the occurrence
+        idxs = []
+        p = b.find(old_)
+        while p >= 0:
+            idxs.append(p)
+            p = b.find(old_, p + 1)
+        p = idxs[m[2] % len(idxs)]
+        return fixlen(t, b[:p] + new_ + b[p + len(old_):])
     if k == "empty":
         return fixlen(t, b"")
     if k == "hugelen":
@@ -339,7 +367,10 @@ def mutate(data, m):
         alg = int.from_bytes(body[0:2], "big")
         if alg != 1:
             return None
-        declared = int.from_bytes(body[2:5], "big") if m[2] else 1000
+        # m[2]: 0 = 1000 bytes, 1 = the honest length, 2 = nothing at all,
+        # 3 = one byte
+        declared = {0: 1000, 1: int.from_bytes(body[2:5], "big"), 2: 0,
+                    3: 1}[m[2]]
         if len(m) > 3 and m[3] == "brotli":
             # the receiver advertises brotli whenever it can decode it
             blob = brotli_bomb(16 * m[1])
@@ -991,14 +1022,22 @@ def explicit(tier, seed):
                 for j, m in enumerate(fixed):
                     yield {"fl": fl, "side": side, "idx": idx, "m": m,
                            "nocs": (j + idx) % 2 == 0}
+                if t in (11, 25) and ln > 200:
+                    for a in range(6):
+                        for occ in range(3):
+                            yield {"fl": fl, "side": side, "idx": idx,
+                                   "m": ["oid", a, occ]}
                 if t == 25:
                     for mb in (8, 32):
                         for keep in (0, 1):
                             yield {"fl": fl, "side": side, "idx": idx,
                                    "m": ["bomb", mb, keep]}
-                    for keep in (0, 1):
+                    for keep in (0, 1, 2, 3):
                         yield {"fl": fl, "side": side, "idx": idx,
                                "m": ["bomb", 4, keep, "brotli"]}
+                    for keep in (2, 3):
+                        yield {"fl": fl, "side": side, "idx": idx,
+                               "m": ["bomb", 8, keep]}
                 if t in (1, 2, 8) or (t in (13, 4) and
                                       fl.startswith("tls13")):
                     for m in ext_fixed:
